@@ -32,6 +32,10 @@ type SpecGen struct {
 	// Classes requested
 	Want map[string]bool
 	Errs []string
+	// Dec: also generate the pointwise reference decoding (dec_T) and the DEC clauses of byte-slice decoders
+	Dec bool
+	// Encp: experimental pointwise encoder clauses (see marshalToContract)
+	Encp bool
 }
 
 // PkgPath of a job's generated package.
@@ -172,6 +176,540 @@ func (g *SpecGen) structOnly(t *Type, seen map[string]bool) bool {
 	}
 	return true
 }
+
+// ---- reference DECODING (pointwise): dec_T(b, v) says that value v is what the wire format prescribes for the
+// bytes at the start of slice b. It is derived from the schema description only. It exists for records built
+// from structs, arrays, strings, enums and primitives (for messages and unions accepted input need not be
+// canonical and the relation between bytes and value is not a function of position).
+
+func (g *SpecGen) decOK(t *Type) bool {
+	return g.structOnly(t, map[string]bool{}) && g.boundOK(t, map[string]bool{}) && g.flatElems(t, map[string]bool{})
+}
+
+// rtOK: types for which the encoder is also checked against dec (round trip): dec-able and without dates. A date
+// at the Unix epoch is written as 0 ticks, which the decoder reads back as the zero time.Time: for that one
+// value the bytes written do not decode to the value (observed defect, iohelp.WriteDate / ReadDate).
+func (g *SpecGen) rtOK(t *Type) bool { return g.decOK(t) && g.noDate(t, map[string]bool{}) }
+
+func (g *SpecGen) noDate(t *Type, seen map[string]bool) bool {
+	switch t.Kind {
+	case Prim:
+		return t.Name != "date"
+	case Arr:
+		return g.noDate(t.Elem, seen)
+	case Rec:
+		if seen[t.Name] {
+			return true
+		}
+		seen[t.Name] = true
+		r := g.s.record(t.Name)
+		if r == nil {
+			return false
+		}
+		for _, f := range r.Fields {
+			if !g.noDate(f.Type, seen) {
+				return false
+			}
+		}
+	}
+	return true
+}
+
+// flatElems: every array inside t has elements whose value is its own footprint (primitives, strings, structs
+// of those). Arrays of arrays need a frame lemma for dec across the stores that fill the inner arrays, which
+// the solvers do not find reliably; such types are left out of the DEC claim.
+func (g *SpecGen) flatElems(t *Type, seen map[string]bool) bool {
+	switch t.Kind {
+	case Arr:
+		return isByteT(t.Elem) || (g.noArr(t.Elem, map[string]bool{}) && g.flatElems(t.Elem, seen))
+	case Rec:
+		if seen[t.Name] {
+			return true
+		}
+		seen[t.Name] = true
+		r := g.s.record(t.Name)
+		if r == nil {
+			return false
+		}
+		for _, f := range r.Fields {
+			if !g.flatElems(f.Type, seen) {
+				return false
+			}
+		}
+	}
+	return true
+}
+
+func (g *SpecGen) noArr(t *Type, seen map[string]bool) bool {
+	switch t.Kind {
+	case Arr, MapK:
+		return false
+	case Rec:
+		if seen[t.Name] {
+			return true
+		}
+		seen[t.Name] = true
+		r := g.s.record(t.Name)
+		if r == nil {
+			return false
+		}
+		for _, f := range r.Fields {
+			if !g.noArr(f.Type, seen) {
+				return false
+			}
+		}
+	}
+	return true
+}
+
+// decEnsures emits one DEC clause per field (the record-level dec_T is their conjunction by definition; one
+// obligation per field keeps every query small). src is "mem" (byte slice b) or "stream".
+func (g *SpecGen) decEnsures(r *Record, cond, valueExpr, src string) {
+	pre := "0"
+	for _, f := range r.Fields {
+		v := valueExpr + "." + GoFieldName(r, f.Name, g.o)
+		if src == "mem" {
+			g.line("  ensures [DEC] %s ==> %s(buf[%s:], %s)", cond, g.fn("dec", f.Type.ID()), pre, v)
+		} else {
+			g.line("  ensures [DEC] %s ==> %s(%s + %s, %s)", cond, g.fn("decs", f.Type.ID()), src, pre, v)
+		}
+		pre = pre + " + " + g.sizeX(f.Type, v)
+	}
+}
+
+// decKeys: the heap cells a dec function reads: the byte heap (the buffer) and the value's own read set.
+func (g *SpecGen) decKeys(id string) []string {
+	g.key("E$uint8", "(Array Loc Int)")
+	ks := []string{"E$uint8"}
+	for _, k := range g.rs[id] {
+		if k != "E$uint8" {
+			ks = append(ks, k)
+		}
+	}
+	return ks
+}
+
+func (g *SpecGen) hpD(id string) string {
+	var ps []string
+	for _, k := range g.decKeys(id) {
+		ps = append(ps, fmt.Sprintf("(h%d %s)", g.kidx[k], g.ksort[k]))
+	}
+	return strings.Join(ps, " ")
+}
+
+func (g *SpecGen) haD(id string) string {
+	var ps []string
+	for _, k := range g.decKeys(id) {
+		ps = append(ps, fmt.Sprintf("h%d", g.kidx[k]))
+	}
+	return strings.Join(ps, " ")
+}
+
+func dle(eb, l string, k int) string {
+	var ts []string
+	for j := 0; j < k; j++ {
+		b := fmt.Sprintf("(select %s (loc+ %s %d))", eb, l, j)
+		if j == 0 {
+			ts = append(ts, b)
+		} else {
+			ts = append(ts, fmt.Sprintf("(* %s %s)", pow256[j], b))
+		}
+	}
+	if len(ts) == 1 {
+		return ts[0]
+	}
+	return "(+ " + strings.Join(ts, " ") + ")"
+}
+
+var pow256 = []string{"1", "256", "65536", "16777216", "4294967296", "1099511627776", "281474976710656", "72057594037927936"}
+
+// decTerm: the SMT statement "components c are the decoding of the bytes at location l (of byte heap eb)".
+func (g *SpecGen) decTerm(t *Type, l string, c []string) string {
+	eb := g.h("E$uint8")
+	switch t.Kind {
+	case Prim, EnumK:
+		switch g.baseOf(t) {
+		case "bool":
+			return fmt.Sprintf("(= %s (= (select %s %s) 1))", c[0], eb, l)
+		case "byte", "uint8":
+			return fmt.Sprintf("(= %s (select %s %s))", c[0], eb, l)
+		case "uint16":
+			return fmt.Sprintf("(= %s %s)", c[0], dle(eb, l, 2))
+		case "int16":
+			return fmt.Sprintf("(= %s %s)", toU(c[0], 16), dle(eb, l, 2))
+		case "uint32", "float32":
+			return fmt.Sprintf("(= %s %s)", c[0], dle(eb, l, 4))
+		case "int32":
+			return fmt.Sprintf("(= %s %s)", toU(c[0], 32), dle(eb, l, 4))
+		case "uint64", "float64":
+			return fmt.Sprintf("(= %s %s)", c[0], dle(eb, l, 8))
+		case "int64":
+			return fmt.Sprintf("(= %s %s)", toU(c[0], 64), dle(eb, l, 8))
+		case "string":
+			n := dle(eb, l, 4)
+			return fmt.Sprintf("(and (= (slen %s) %s) (= %s (strOf %s (loc+ %s 4) %s)))", c[0], n, c[0], eb, l, n)
+		case "guid":
+			// wire position p holds guid byte guidperm(p) (written out for the 16 positions: no quantifier)
+			perm := []int{3, 2, 1, 0, 5, 4, 7, 6, 8, 9, 10, 11, 12, 13, 14, 15}
+			var cs []string
+			for p, gb := range perm {
+				cs = append(cs, fmt.Sprintf("(= (select %s %d) (select %s (loc+ %s %d)))", c[0], gb, eb, l, p))
+			}
+			return "(and " + strings.Join(cs, " ") + ")"
+		case "date":
+			n := dle(eb, l, 8)
+			sn := fmt.Sprintf("(ite (>= %s 9223372036854775808) (- %s 18446744073709551616) %s)", n, n, n)
+			return fmt.Sprintf("(and (=> (= %s 0) (isZeroTime %s %s %s)) (=> (and (not (= %s 0)) (<= (- 9223372036854775808) (* %s 100)) (<= (* %s 100) 9223372036854775807)) (and (not (isZeroTime %s %s %s)) (= (unixNano %s %s %s) (* %s 100)))))",
+				n, c[0], c[1], c[2], n, sn, sn, c[0], c[1], c[2], c[0], c[1], c[2], sn)
+		}
+	case Arr, Rec:
+		return app(g.fn("dec", t.ID()), g.haD(t.ID()), fmt.Sprintf("(mk-sl %s 0 0)", l), strings.Join(c, " "))
+	}
+	g.errf("decTerm: unsupported type %s", t.ID())
+	return "true"
+}
+
+// emitDecSMT writes the definitions of the dec functions of arrays and structs.
+func (g *SpecGen) emitDecSMT() {
+	w := &g.smt
+	// two runs of bytes that agree byte for byte make the same string (skolemised extensionality)
+	w.WriteString("(declare-fun sodiff ((Array Loc Int) Loc (Array Loc Int) Loc Int) Int)\n")
+	w.WriteString("(assert (forall ((e1 (Array Loc Int)) (l1 Loc) (e2 (Array Loc Int)) (l2 Loc) (n Int)) (! (or (= (strOf e1 l1 n) (strOf e2 l2 n)) (let ((d (sodiff e1 l1 e2 l2 n))) (and (<= 0 d) (< d n) (not (= (select e1 (loc+ l1 d)) (select e2 (loc+ l2 d))))))) :pattern ((strOf e1 l1 n) (strOf e2 l2 n)))))\n")
+	for _, id := range g.order {
+		t := g.used[id]
+		if !g.decOK(t) {
+			continue
+		}
+		HP := g.hpD(id)
+		decl, c := vars("c", g.flat(t))
+		decF := g.fn("dec", id)
+		decApp := app(decF, g.haD(id), "b", strings.Join(c, " "))
+		l := "(s-loc b)"
+		eb := g.h("E$uint8")
+		var body string
+		switch t.Kind {
+		case Prim, EnumK:
+			body = g.decTerm(t, l, c)
+		case Arr:
+			// dec_arr(b, s) <=> len(s) == count /\ forall j < len(s): the element decodes the bytes at its position.
+			// The "<=" direction is skolemised with an index function (the first element that does not fit), so that
+			// establishing dec_arr only needs the element fact at one named index.
+			sv := c[0]
+			cnt := dle(eb, l, 4)
+			elemAt := func(j string) string {
+				if isByteT(t.Elem) {
+					return fmt.Sprintf("(= (select %s (loc+ (s-loc %s) %s)) (select %s (loc+ %s (+ 4 %s))))", eb, sv, j, eb, l, j)
+				}
+				el := g.loadAt(t.Elem, fmt.Sprintf("(elt (s-loc %s) %s)", sv, j))
+				var off string
+				if fs := g.s.FixedSize(t.Elem); fs > 0 {
+					off = fmt.Sprintf("(+ 4 (* %s %d))", j, fs)
+				} else {
+					off = fmt.Sprintf("(+ 4 %s)", app(g.fn("sizeel", id), g.ha(id), sv, j))
+				}
+				return g.decTerm(t.Elem, fmt.Sprintf("(loc+ %s %s)", l, off), el)
+			}
+			dfn := g.fn("decdiff", id)
+			fmt.Fprintf(w, "(declare-fun %s (%s) Int)\n", dfn, sortsOf(HP, "Slice", g.flat(t)))
+			d := app(dfn, g.haD(id), "b", sv)
+			w.WriteString(axiom([]string{HP, "(b Slice)", decl}, fmt.Sprintf("(=> %s (and (= (s-len %s) %s) (forall ((dj Int)) (=> (and (<= 0 dj) (< dj (s-len %s))) %s))))", decApp, sv, cnt, sv, elemAt("dj")), decApp))
+			w.WriteString(axiom([]string{HP, "(b Slice)", decl}, fmt.Sprintf("(or %s (not (= (s-len %s) %s)) (and (<= 0 %s) (< %s (s-len %s)) (not %s)))", decApp, sv, cnt, d, d, sv, elemAt(d)), decApp))
+			continue
+		case Rec:
+			r := g.s.record(t.Name)
+			var conj []string
+			pre := []string{}
+			k := 0
+			for _, f := range r.Fields {
+				n := len(g.flat(f.Type))
+				fc := c[k : k+n]
+				k += n
+				conj = append(conj, g.decTerm(f.Type, fmt.Sprintf("(loc+ %s %s)", l, sum(pre)), fc))
+				pre = append(pre, g.sizeTerm(f.Type, fc))
+			}
+			if len(conj) == 0 {
+				body = "true"
+			} else {
+				body = "(and " + strings.Join(conj, " ") + " true)"
+			}
+		}
+		w.WriteString(axiom([]string{HP, "(b Slice)", decl}, fmt.Sprintf("(= %s %s)", decApp, body), decApp))
+	}
+}
+
+// ---- the same reference decoding over a stream: decs_T(s, p, v) says that v is what the format prescribes for
+// the bytes that stream s delivers from position p on (rbyte / rstr of the trace theory).
+
+func sle(sid, p string, k int) string {
+	var ts []string
+	for j := 0; j < k; j++ {
+		b := fmt.Sprintf("(rbyte %s (+ %s %d))", sid, p, j)
+		if j == 0 {
+			ts = append(ts, b)
+		} else {
+			ts = append(ts, fmt.Sprintf("(* %s %s)", pow256[j], b))
+		}
+	}
+	if len(ts) == 1 {
+		return ts[0]
+	}
+	return "(+ " + strings.Join(ts, " ") + ")"
+}
+
+func (g *SpecGen) decsTerm(t *Type, sid, p string, c []string) string {
+	switch t.Kind {
+	case Prim, EnumK:
+		switch g.baseOf(t) {
+		case "bool":
+			return fmt.Sprintf("(= %s (= (rbyte %s %s) 1))", c[0], sid, p)
+		case "byte", "uint8":
+			return fmt.Sprintf("(= %s (rbyte %s %s))", c[0], sid, p)
+		case "uint16":
+			return fmt.Sprintf("(= %s %s)", c[0], sle(sid, p, 2))
+		case "int16":
+			return fmt.Sprintf("(= %s %s)", toU(c[0], 16), sle(sid, p, 2))
+		case "uint32", "float32":
+			return fmt.Sprintf("(= %s %s)", c[0], sle(sid, p, 4))
+		case "int32":
+			return fmt.Sprintf("(= %s %s)", toU(c[0], 32), sle(sid, p, 4))
+		case "uint64", "float64":
+			return fmt.Sprintf("(= %s %s)", c[0], sle(sid, p, 8))
+		case "int64":
+			return fmt.Sprintf("(= %s %s)", toU(c[0], 64), sle(sid, p, 8))
+		case "string":
+			n := sle(sid, p, 4)
+			return fmt.Sprintf("(and (= (slen %s) %s) (= %s (rstr %s (+ %s 4) %s)))", c[0], n, c[0], sid, p, n)
+		case "guid":
+			perm := []int{3, 2, 1, 0, 5, 4, 7, 6, 8, 9, 10, 11, 12, 13, 14, 15}
+			var cs []string
+			for w, gb := range perm {
+				cs = append(cs, fmt.Sprintf("(= (select %s %d) (rbyte %s (+ %s %d)))", c[0], gb, sid, p, w))
+			}
+			return "(and " + strings.Join(cs, " ") + ")"
+		case "date":
+			n := sle(sid, p, 8)
+			sn := fmt.Sprintf("(ite (>= %s 9223372036854775808) (- %s 18446744073709551616) %s)", n, n, n)
+			return fmt.Sprintf("(and (=> (= %s 0) (isZeroTime %s %s %s)) (=> (and (not (= %s 0)) (<= (- 9223372036854775808) (* %s 100)) (<= (* %s 100) 9223372036854775807)) (and (not (isZeroTime %s %s %s)) (= (unixNano %s %s %s) (* %s 100)))))",
+				n, c[0], c[1], c[2], n, sn, sn, c[0], c[1], c[2], c[0], c[1], c[2], sn)
+		}
+	case Arr, Rec:
+		return app(g.fn("decs", t.ID()), g.ha(t.ID()), sid, p, strings.Join(c, " "))
+	}
+	g.errf("decsTerm: unsupported type %s", t.ID())
+	return "true"
+}
+
+func (g *SpecGen) emitDecsSMT() {
+	w := &g.smt
+	for _, id := range g.order {
+		t := g.used[id]
+		if !g.decOK(t) {
+			continue
+		}
+		HP := g.hp(id)
+		decl, c := vars("c", g.flat(t))
+		decF := g.fn("decs", id)
+		decApp := app(decF, g.ha(id), "s", "p", strings.Join(c, " "))
+		var body string
+		switch t.Kind {
+		case Prim, EnumK:
+			body = g.decsTerm(t, "s", "p", c)
+		case Arr:
+			sv := c[0]
+			cnt := sle("s", "p", 4)
+			elemAt := func(j string) string {
+				if isByteT(t.Elem) {
+					return fmt.Sprintf("(= (select %s (elt (s-loc %s) %s)) (rbyte s (+ p (+ 4 %s))))", g.h("E$uint8"), sv, j, j)
+				}
+				el := g.loadAt(t.Elem, fmt.Sprintf("(elt (s-loc %s) %s)", sv, j))
+				var off string
+				if fs := g.s.FixedSize(t.Elem); fs > 0 {
+					off = fmt.Sprintf("(+ 4 (* %s %d))", j, fs)
+				} else {
+					off = fmt.Sprintf("(+ 4 %s)", app(g.fn("sizeel", id), g.ha(id), sv, j))
+				}
+				return g.decsTerm(t.Elem, "s", fmt.Sprintf("(+ p %s)", off), el)
+			}
+			dfn := g.fn("decsdiff", id)
+			fmt.Fprintf(w, "(declare-fun %s (%s) Int)\n", dfn, sortsOf(HP, "Int Int", g.flat(t)))
+			d := app(dfn, g.ha(id), "s", "p", sv)
+			w.WriteString(axiom([]string{HP, "(s Int)", "(p Int)", decl}, fmt.Sprintf("(=> %s (and (= (s-len %s) %s) (forall ((dj Int)) (=> (and (<= 0 dj) (< dj (s-len %s))) %s))))", decApp, sv, cnt, sv, elemAt("dj")), decApp))
+			w.WriteString(axiom([]string{HP, "(s Int)", "(p Int)", decl}, fmt.Sprintf("(or %s (not (= (s-len %s) %s)) (and (<= 0 %s) (< %s (s-len %s)) (not %s)))", decApp, sv, cnt, d, d, sv, elemAt(d)), decApp))
+			continue
+		case Rec:
+			r := g.s.record(t.Name)
+			var conj []string
+			pre := []string{}
+			k := 0
+			for _, f := range r.Fields {
+				n := len(g.flat(f.Type))
+				fc := c[k : k+n]
+				k += n
+				conj = append(conj, g.decsTerm(f.Type, "s", fmt.Sprintf("(+ p %s)", sum(pre)), fc))
+				pre = append(pre, g.sizeTerm(f.Type, fc))
+			}
+			if len(conj) == 0 {
+				body = "true"
+			} else {
+				body = "(and " + strings.Join(conj, " ") + " true)"
+			}
+		}
+		w.WriteString(axiom([]string{HP, "(s Int)", "(p Int)", decl}, fmt.Sprintf("(= %s %s)", decApp, body), decApp))
+	}
+}
+
+// ---- DECFUN: the reference decoding determines the value. For every type whose arrays have fixed-size
+// elements (offsets then do not depend on the elements themselves; variable-size elements would need induction
+// on the index) and which contains no date (a time.Time is abstract here): dec_T(b, v) and dec_T(b, w) imply
+// v = w, componentwise and, for arrays, element by element.
+
+func (g *SpecGen) funOK(t *Type, seen map[string]bool) bool {
+	switch t.Kind {
+	case Prim:
+		return t.Name != "date"
+	case EnumK:
+		return true
+	case Arr:
+		return g.s.FixedSize(t.Elem) > 0 && g.funOK(t.Elem, seen)
+	case Rec:
+		if seen[t.Name] {
+			return false
+		}
+		seen[t.Name] = true
+		defer delete(seen, t.Name)
+		r := g.s.record(t.Name)
+		if r == nil || r.Kind != Struct {
+			return false
+		}
+		for _, f := range r.Fields {
+			if !g.funOK(f.Type, seen) {
+				return false
+			}
+		}
+		return true
+	}
+	return false
+}
+
+// eqvTerm: "the two flattened values are the same value" (arrays: same length and the same elements).
+func (g *SpecGen) eqvTerm(t *Type, c, d []string) string {
+	switch t.Kind {
+	case Prim, EnumK:
+		if g.baseOf(t) == "guid" {
+			var cs []string
+			for j := 0; j < 16; j++ {
+				cs = append(cs, fmt.Sprintf("(= (select %s %d) (select %s %d))", c[0], j, d[0], j))
+			}
+			return "(and " + strings.Join(cs, " ") + ")"
+		}
+		return fmt.Sprintf("(= %s %s)", c[0], d[0])
+	case Arr:
+		ec := g.loadAt(t.Elem, fmt.Sprintf("(elt (s-loc %s) ej)", c[0]))
+		ed := g.loadAt(t.Elem, fmt.Sprintf("(elt (s-loc %s) ej)", d[0]))
+		return fmt.Sprintf("(and (= (s-len %s) (s-len %s)) (forall ((ej Int)) (=> (and (<= 0 ej) (< ej (s-len %s))) %s)))", c[0], d[0], c[0], g.eqvTerm(t.Elem, ec, ed))
+	case Rec:
+		r := g.s.record(t.Name)
+		var cs []string
+		k := 0
+		for _, f := range r.Fields {
+			n := len(g.flat(f.Type))
+			cs = append(cs, g.eqvTerm(f.Type, c[k:k+n], d[k:k+n]))
+			k += n
+		}
+		if len(cs) == 0 {
+			return "true"
+		}
+		return "(and " + strings.Join(cs, " ") + " true)"
+	}
+	return "true"
+}
+
+func (g *SpecGen) emitDecFunLemmas() {
+	for _, id := range g.order {
+		t := g.used[id]
+		if !g.decOK(t) || !g.funOK(t, map[string]bool{}) || t.Kind == Prim || t.Kind == EnumK {
+			continue
+		}
+		var decls []string
+		for _, k := range g.decKeys(id) {
+			decls = append(decls, fmt.Sprintf("(declare-const h%d %s)", g.kidx[k], g.ksort[k]))
+		}
+		decls = append(decls, "(declare-const b Slice)")
+		sorts := g.flat(t)
+		var c, d []string
+		for i, so := range sorts {
+			c = append(c, fmt.Sprintf("v%d", i))
+			d = append(d, fmt.Sprintf("w%d", i))
+			decls = append(decls, fmt.Sprintf("(declare-const v%d %s)", i, so), fmt.Sprintf("(declare-const w%d %s)", i, so))
+		}
+		decF := g.fn("dec", id)
+		hyps := []string{app(decF, g.haD(id), "b", strings.Join(c, " ")), app(decF, g.haD(id), "b", strings.Join(d, " "))}
+		// typing: integer components and integer heap cells hold values of their Go type
+		hyps = append(hyps, g.rangeHyps(t, c)...)
+		hyps = append(hyps, g.rangeHyps(t, d)...)
+		for _, k := range g.decKeys(id) {
+			if lo, hi, ok := heapRange(k); ok {
+				hyps = append(hyps, fmt.Sprintf("(forall ((hk Loc)) (! (and (<= %s (select h%d hk)) (<= (select h%d hk) %s)) :pattern ((select h%d hk))))", lo, g.kidx[k], g.kidx[k], hi, g.kidx[k]))
+			}
+		}
+		g.e.RawLemmas = append(g.e.RawLemmas, vc.RawLemma{
+			Pkg: g.job.PkgPath(), Name: "DECFUN/" + id, Decls: decls,
+			Hyps: hyps,
+			Goal: g.eqvTerm(t, c, d),
+		})
+	}
+}
+
+var intRanges = map[string][2]string{
+	"byte": {"0", "255"}, "uint8": {"0", "255"}, "uint16": {"0", "65535"}, "uint32": {"0", "4294967295"}, "uint64": {"0", "18446744073709551615"},
+	"int16": {"(- 32768)", "32767"}, "int32": {"(- 2147483648)", "2147483647"}, "int64": {"(- 9223372036854775808)", "9223372036854775807"},
+	"float32": {"0", "4294967295"}, "float64": {"0", "18446744073709551615"},
+}
+
+// rangeHyps: the integer components of a flattened value of type t lie in the range of their Go type.
+func (g *SpecGen) rangeHyps(t *Type, c []string) []string {
+	switch t.Kind {
+	case Prim, EnumK:
+		if r, ok := intRanges[g.baseOf(t)]; ok {
+			return []string{fmt.Sprintf("(and (<= %s %s) (<= %s %s))", r[0], c[0], c[0], r[1])}
+		}
+	case Rec:
+		r := g.s.record(t.Name)
+		var out []string
+		k := 0
+		for _, f := range r.Fields {
+			n := len(g.flat(f.Type))
+			out = append(out, g.rangeHyps(f.Type, c[k:k+n])...)
+			k += n
+		}
+		return out
+	}
+	return nil
+}
+
+// heapRange: the range of the values an element heap of integer type holds (by its key E$<type>).
+func heapRange(key string) (lo, hi string, ok bool) {
+	if !strings.HasPrefix(key, "E$") {
+		return "", "", false
+	}
+	r, ok := intRanges[strings.TrimPrefix(key, "E$")]
+	return r[0], r[1], ok
+}
+
+// sortsOf lists the argument sorts of a function over the heap parameters hp, extra sorts and value sorts.
+func sortsOf(hp string, extra string, vs []string) string {
+	var out []string
+	for _, m := range reHPSort.FindAllStringSubmatch(hp, -1) {
+		out = append(out, m[1])
+	}
+	if extra != "" {
+		out = append(out, extra)
+	}
+	out = append(out, vs...)
+	return strings.Join(out, " ")
+}
+
+var reHPSort = regexp.MustCompile(`\(h[0-9]+ (\(Array [^()]*(?:\([^()]*\))?[^()]*\)|[A-Za-z]+)\)`)
 
 func (g *SpecGen) fn(kind, id string) string { return kind + "_" + g.pfx + "_" + id }
 
@@ -728,6 +1266,16 @@ func (g *SpecGen) Generate() error {
 			g.line("pure func %s(h heap:%s, t Tr, s %s, i int) Tr", g.fn("encel", id), bundle, gt)
 			g.line("pure func %s(h heap:%s, s %s, i int) int", g.fn("sizeel", id), bundle, gt)
 		}
+		if g.decOK(t) && g.Dec {
+			bundleD := "HD_" + g.pfx + "_" + id
+			var itemsD []string
+			for _, k := range g.decKeys(id) {
+				itemsD = append(itemsD, "key:"+k+":"+g.ksort[k])
+			}
+			g.line("heaps %s: %s", bundleD, strings.Join(itemsD, ", "))
+			g.line("pure func %s(h heap:%s, b []byte, v %s) bool", g.fn("dec", id), bundleD, gt)
+			g.line("pure func %s(h heap:%s, s int, p int, v %s) bool", g.fn("decs", id), bundle, gt)
+		}
 	}
 	for _, r := range g.s.AllRecords() {
 		g.recordContracts(r)
@@ -740,6 +1288,11 @@ func (g *SpecGen) Generate() error {
 		return err
 	}
 	g.emitSMT()
+	if g.Dec {
+		g.emitDecSMT()
+		g.emitDecsSMT()
+		g.emitDecFunLemmas()
+	}
 	g.e.RawSMTLate[g.job.PkgPath()] = append(g.e.RawSMTLate[g.job.PkgPath()], g.smt.String())
 	if len(g.Errs) > 0 {
 		return fmt.Errorf("spec generator: %s", strings.Join(g.Errs, "; "))
@@ -755,6 +1308,7 @@ type walk struct {
 	marks  []string // unfolding markers of enclosing loops (needed to bound partial sums)
 	ord    int
 	nn     string // "p != nil" for the message field being walked (safe mode)
+	dec    bool   // emit the DEC invariants (pointwise reference decoding)
 	bytes  bool   // the record contains byte arrays: carry the frame of the byte heap through loops
 }
 
@@ -870,6 +1424,12 @@ func (g *SpecGen) decodeContract(r *Record) {
 		// C05: exactly the bytes of one record are taken from the stream, however the reader fragments its reads
 		g.line("  ensures [CONSUME] err == nil ==> taken(ur(ior)) == old(taken(ur(ior))) + %s", g.sizeX(self, "*bbp"))
 	}
+	// on the stream side byte arrays share the byte heap with the reader's scratch buffer; the frame reasoning
+	// this needs is slow (18-21 s per obligation), so records with byte / uint8 arrays are left out of the stream DEC
+	decs := consume && g.Dec && g.decOK(self) && !g.hasByteArr(self, map[string]bool{})
+	if decs {
+		g.decEnsures(r, "err == nil", "bbp", "sid(ur(ior)), old(taken(ur(ior)))")
+	}
 	g.line("  modifies *bbp, %s", g.streamMods(asp, r))
 	emitMake := func() {
 		mk := "Make"
@@ -883,6 +1443,9 @@ func (g *SpecGen) decodeContract(r *Record) {
 		g.line("  ensures [CONS] result1 == nil ==> r.Reader == old(r.Reader)")
 		if consume {
 			g.line("  ensures [CONSUME] result1 == nil ==> taken(r.Reader) == old(taken(r.Reader)) + %s", g.sizeX(self, "result0"))
+		}
+		if decs {
+			g.decEnsures(r, "result1 == nil", "result0", "sid(r.Reader), old(taken(r.Reader))")
 		}
 		g.line("  modifies %s", g.streamMods("r", r))
 	}
@@ -907,6 +1470,12 @@ func (g *SpecGen) decodeContract(r *Record) {
 		}
 	}
 	var marks []string
+	var prevBytes []string // byte-array fields decoded before the loop being described
+	frozen := func(k int) {
+		for _, pb := range prevBytes {
+			g.line("  invariant loop %d: forall fk Loc :: lref(fk) == ref(%s) ==> mem(byte)[fk] == atentry(mem(byte)[fk])", k, pb)
+		}
+	}
 	var walkArr func(t *Type, v string, depth int, pre string)
 	walkArr = func(t *Type, v string, depth int, pre string) {
 		if t.Kind == MapK {
@@ -934,12 +1503,29 @@ func (g *SpecGen) decodeContract(r *Record) {
 		if consume && pre != "" && isByteT(t.Elem) {
 			// a uint8 array decoded element by element: one byte each (byte arrays have no prefix-sum function)
 			g.line("  invariant loop %d: r.Err == nil ==> taken(r.Reader) == old(taken(ur(ior))) + %s + 4 + it(%d)", k, pre, k)
+			if decs {
+				frozen(k)
+				g.line("  invariant loop %d: atentry(r.Err) != nil ==> r.Err != nil", k)
+				g.line("  invariant loop %d: r.Err == nil ==> len(ranged(%d)) == rle(r.Reader, old(taken(ur(ior))) + %s, 4)", k, k, pre)
+				g.line("  invariant loop %d: r.Err == nil ==> (forall dj int :: 0 <= dj && dj < it(%d) ==> ranged(%d)[dj] == rbyte(sid(r.Reader), old(taken(ur(ior))) + %s + 4 + dj))", k, k, k, pre)
+			}
 			return
 		}
 		if consume && pre != "" {
 			sz := fmt.Sprintf("%s(ranged(%d), it(%d))", g.fn("sizeel", t.ID()), k, k)
 			szNext := fmt.Sprintf("%s(ranged(%d), it(%d) + 1)", g.fn("sizeel", t.ID()), k, k)
 			g.line("  invariant loop %d: (r.Err == nil ==> taken(r.Reader) == old(taken(ur(ior))) + %s + 4 + %s) && UnfI(%s)", k, pre, sz, sz)
+			if decs && g.decOK(t) {
+				off := fmt.Sprintf("%s(ranged(%d), dj)", g.fn("sizeel", t.ID()), k)
+				if fs := g.s.FixedSize(t.Elem); fs > 0 {
+					off = fmt.Sprintf("dj * %d", fs)
+				}
+				// the error latch across the loop: what was decoded before the loop stays meaningful after it
+				frozen(k)
+				g.line("  invariant loop %d: atentry(r.Err) != nil ==> r.Err != nil", k)
+				g.line("  invariant loop %d: r.Err == nil ==> len(ranged(%d)) == rle(r.Reader, old(taken(ur(ior))) + %s, 4)", k, k, pre)
+				g.line("  invariant loop %d: r.Err == nil ==> (forall dj int :: 0 <= dj && dj < it(%d) ==> %s(sid(r.Reader), old(taken(ur(ior))) + %s + 4 + %s, ranged(%d)[dj]))", k, k, g.fn("decs", t.Elem.ID()), pre, off, k)
+			}
 			for _, m := range marks {
 				g.line("  invariant loop %d: %s", k, m)
 			}
@@ -959,6 +1545,9 @@ func (g *SpecGen) decodeContract(r *Record) {
 			if consume {
 				walkArr(f.Type, v, 1, pre)
 				pre = pre + " + " + g.sizeX(f.Type, v)
+				if f.Type.Kind == Arr && isByteT(f.Type.Elem) {
+					prevBytes = append(prevBytes, v)
+				}
 			} else {
 				walkArr(f.Type, v, 1, "")
 			}
@@ -1079,6 +1668,10 @@ func (g *SpecGen) unmarshalContract(r *Record) {
 	if bound {
 		g.line("  ensures [BOUND] (old(%s) && err == nil) ==> %s <= len(buf)", zero, g.sizeX(self, "*bbp"))
 	}
+	if g.Dec && r.Kind == Struct && g.decOK(self) {
+		// the decoded value is what the wire format prescribes for the bytes of the buffer, field by field
+		g.decEnsures(r, "err == nil", "bbp", "mem")
+	}
 	if r.Kind == Message || r.Kind == Union {
 		// a message / union is framed by its length prefix: a buffer that does not hold the whole declared
 		// body is truncated input, whatever the body contains (e.g. fields this version does not know)
@@ -1123,6 +1716,7 @@ func (g *SpecGen) unmarshalContract(r *Record) {
 	switch r.Kind {
 	case Struct:
 		pre := "0"
+		w.dec = g.Dec && g.decOK(self)
 		for _, f := range r.Fields {
 			v := g.fieldExpr(r, f)
 			g.walkDec(f.Type, v, pre, bound, w)
@@ -1204,6 +1798,15 @@ func (g *SpecGen) walkDec(t *Type, v, pre string, bound bool, w *walk) {
 	szNext := fmt.Sprintf("%s(ranged(%d), it(%d) + 1)", g.fn("sizeel", t.ID()), k, k)
 	if bound {
 		g.line("  invariant loop %d: at == %s + 4 + %s && UnfI(%s)", k, pre, sz, sz)
+	}
+	if bound && w.dec && g.decOK(t) {
+		// DEC: the count and the elements decoded so far are what the bytes at their positions prescribe
+		off := fmt.Sprintf("%s(ranged(%d), dj)", g.fn("sizeel", t.ID()), k)
+		if fs := g.s.FixedSize(t.Elem); fs > 0 {
+			off = fmt.Sprintf("dj * %d", fs)
+		}
+		g.line("  invariant loop %d: len(ranged(%d)) == leval(buf, %s, 4)", k, k, pre)
+		g.line("  invariant loop %d: forall dj int :: 0 <= dj && dj < it(%d) ==> %s(buf[%s + 4 + %s:], ranged(%d)[dj])", k, k, g.fn("dec", t.Elem.ID()), pre, off, k)
 	}
 	for _, m := range w.marks {
 		g.line("  invariant loop %d: %s", k, m)
@@ -1291,6 +1894,9 @@ func (g *SpecGen) makeContracts(r *Record) {
 	g.line("func %s%sFromBytes", mk, n)
 	if g.boundOK(self, map[string]bool{}) {
 		g.line("  ensures [BOUND] result1 == nil ==> %s <= len(buf)", g.sizeX(self, "result0"))
+	}
+	if g.Dec && r.Kind == Struct && g.decOK(self) {
+		g.decEnsures(r, "result1 == nil", "result0", "mem")
 	}
 	if g.hasMap(self) {
 		g.line("  modifies fresh(), tr(), hw(), alloc()")
@@ -1496,8 +2102,23 @@ func (g *SpecGen) marshalToContract(r *Record) {
 	}
 	g.line("  ensures [SIZE] result == old(%s) && hw(buf) == off(buf) + result", g.sizeX(self, V))
 	g.line("  ensures [ENC] tr(buf) == old(%s)", g.encX(self, "tr(buf)", V))
+	// ENCP (the encoder's output decodes, by the reference, to the encoded value) is experimental: it discharges
+	// for fixed-width fields and arrays of them but is slow, and GUIDs and strings need further lemmas; it is
+	// not part of any claim and is only generated on request.
+	encp := g.Dec && g.Encp && r.Kind == Struct && g.rtOK(self)
+	if encp {
+		// pointwise: the bytes written are bytes that the reference decoding maps back to the value
+		// (counts are 32 bits on the wire: stated for values whose encoding is shorter than 4 GiB)
+		pre := "0"
+		for _, f := range r.Fields {
+			v := g.fieldExpr(r, f)
+			g.line("  ensures [ENCP] old(%s) < 4294967296 ==> %s(buf[%s:], %s)", g.sizeX(self, V), g.fn("dec", f.Type.ID()), pre, v)
+			pre = pre + " + old(" + g.sizeX(f.Type, v) + ")"
+		}
+		_ = self // the record-level dec_T(buf, v) is the conjunction of the per-field clauses (definition of dec_T)
+	}
 	g.line("  modifies buf[0:%s], tr(buf), hw(buf)", g.sizeX(self, V))
-	w := &walk{ord: 1, bytes: hasB}
+	w := &walk{ord: 1, bytes: hasB, dec: encp}
 	switch r.Kind {
 	case Struct:
 		at, tr := "0", "old(tr(buf))"
@@ -1539,6 +2160,15 @@ func (g *SpecGen) walkEnc(t *Type, v, at, tr string, w *walk) {
 	g.line("  invariant loop %d: ranged(%d) == %s", k, k, v)
 	g.line("  invariant loop %d: at == %s + 4 + %s && hw(buf) == off(buf) + at && UnfI(%s) && UnfI(%s)", k, at, sz, sz, szNext)
 	g.line("  invariant loop %d: tr(buf) == %s && UnfT(%s)", k, en, en)
+	if w.dec && g.decOK(t) {
+		off := fmt.Sprintf("oh(%s(ranged(%d), dj))", g.fn("sizeel", t.ID()), k)
+		if fs := g.s.FixedSize(t.Elem); fs > 0 {
+			off = fmt.Sprintf("dj * %d", fs)
+		}
+		g.line("  invariant loop %d: forall fk Loc :: (lref(fk) == ref(buf) && lidx(fk) < off(buf) + %s + 4) ==> mem(byte)[fk] == atentry(mem(byte)[fk])", k, at)
+		g.line("  invariant loop %d: len(ranged(%d)) < 4294967296 ==> len(ranged(%d)) == leval(buf, %s, 4)", k, k, k, at)
+		g.line("  invariant loop %d: forall dj int :: 0 <= dj && dj < it(%d) ==> %s(buf[%s + 4 + %s:], ranged(%d)[dj])", k, k, g.fn("dec", t.Elem.ID()), at, off, k)
+	}
 	if w.bytes {
 		g.line("  invariant loop %d: %s", k, byteFrameInv)
 	}
